@@ -32,7 +32,7 @@ def run(rep, tier):
     add_tier_table(rep, tier)
     rename_replace_table(rep)
     merge_tiers_table(rep)
-    rule_atomic(rep, ["Textgrid.addTier", "Textgrid.removeTier", "Textgrid.renameTier", "Textgrid.replaceTier"])
+    rule_atomic(rep, ["Textgrid.addTier", "Textgrid.removeTier", "Textgrid.renameTier", "Textgrid.replaceTier"], semantic=True)
 
 
 def lifting(rep, shape, only=None, own=False):
@@ -117,7 +117,7 @@ def add_tier_table(rep, tier):
         out = []
         for newname in ("N", "B"):
             for index in indices:
-                for mode in ("silence", "warning", "error"):
+                for mode in ("silence", "warning", "error", "cats"):
                     def code(I):
                         tg, objs = build_tg(I, [("interval", n, []) for n in names], m, M)
                         t = build_tier(I, "point", newname, [], tm, tM)
@@ -141,7 +141,9 @@ def add_tier_table(rep, tier):
                     widens = O.state.signs(tm - m) == frozenset([-1]) or O.state.signs(tM - M) == frozenset([1])
                     exp_names = list(names)
                     exp_raise = None
-                    if newname in names:
+                    if mode == "cats":
+                        exp_raise = "WrongOption"  # any praatio error; nothing may change
+                    elif newname in names:
                         exp_raise = "TierNameExistsError"
                     elif widens and mode == "error":
                         exp_raise = "TextgridStateAutoModified"
@@ -189,7 +191,7 @@ def rename_replace_table(rep):
             out = []
             for target in names + ["Z"]:
                 for newname in ("N", "C", target):
-                    for mode in ("silence", "error"):
+                    for mode in (("silence", "error", "cats") if method == "replaceTier" else ("silence",)):
                         def code(I):
                             tg, objs = build_tg(I, [("interval", n, []) for n in names], m, M)
                             I.prints = 0
@@ -215,6 +217,8 @@ def rename_replace_table(rep):
                         exp_raise = None
                         if target not in names:
                             exp_raise = "KeyError" if method == "renameTier" else "ValueError"
+                        elif mode == "cats":
+                            exp_raise = "WrongOption"
                         elif newname in names and newname != target:
                             exp_raise = "TierNameExistsError"
                         elif widens and mode == "error":
